@@ -168,7 +168,9 @@ def run_many(jobs, max_workers: int = 5):
 
 def require_clean(res: TLCResult, what: str) -> None:
     if res.error or (res.rc != 0 and not res.invariant_violated and not res.deadlock and not res.property_violated):
-        tail = "\n".join(res.out.splitlines()[-40:])
+        lines = res.out.splitlines()
+        first = next((n for n, ln in enumerate(lines) if "Error:" in ln), max(0, len(lines) - 25))
+        tail = "\n".join(lines[first:first + 25])
         raise MachineryError(f"TLC failed on {what} (rc={res.rc}):\n{tail}")
 
 
